@@ -299,7 +299,7 @@ func (g *Engine) runHarness(h *Harness, solverKind string, timeoutMs int) (res *
 		h.Unroll = 4
 	}
 	if h.BufMax == 0 {
-		h.BufMax = 96
+		h.BufMax = 1024
 	}
 	if h.MaxSteps == 0 {
 		h.MaxSteps = 3000000
